@@ -1,6 +1,7 @@
 CONSTANTS
   N = 3
   Plain = 2
+  Near = 2
   Alike = 2
   Site <- SiteByRender
 SPECIFICATION Spec
